@@ -156,3 +156,30 @@ Theorem C06_source_round_trip :
   exists l, EncodingGen.encode p s = Ok l /\
     (zlen l < 2 ^ 52 -> exists q, EncodingGen.decode l = Ok q /\ triple q = (board p, to_move p, reserves p)).
 Proof. exact gen_round_trip. Qed.
+
+(* ---- the same about _encode_batch / encode_batch REGENERATED FROM THE SOURCE (gen/EncodeBatchGen.v, harness/torch2coq.py against model/TorchLite.v; proofs/EncodeBatchGenEq.v) ---- *)
+From TV Require Import model.Tak model.PySem model.TorchLite model.Encoding spec.EncodingSpec proofs.EncodeBatchGenEq.
+From TV Require gen.EncodeBatchGen.
+(* the translated encode_batch IS the model's, for every list of positions and every content of the lens buffer *)
+Theorem C06_source_encode_batch_eq :
+  forall uninit s ps, small s ps ->
+  EncodeBatchGen.encode_batch uninit ps s = embed_batch (Encoding.encode_batch_with s ps).
+Proof. exact gen_encode_batch_eq. Qed.
+(* C06_batch_rows for the generated function: rows = encodings padded with 0 to the maximum width, mask = exactly the
+   real tokens, for any batch in any order *)
+Theorem C06_source_batch_rows :
+  forall uninit s ps encs, small s ps ->
+  Forall2 (fun p e => Encoding.encode s p = Some e) ps encs ->
+  EncodeBatchGen.encode_batch uninit ps s =
+  Ok (I2 (map (padded (max_len encs)) encs), B2 (map (mask_of (max_len encs)) encs)).
+Proof. exact gen_batch_rows. Qed.
+(* C06_batch_raises: IndexError exactly when a member is outside the vocabulary *)
+Theorem C06_source_batch_raises :
+  forall uninit s ps, small s ps ->
+  (EncodeBatchGen.encode_batch uninit ps s = Crash IndexError <-> exists p, In p ps /\ Encoding.encode s p = None).
+Proof. exact gen_batch_raises. Qed.
+(* every entry of the uninitialised buffer is written before it is read *)
+Theorem C06_source_uninit_irrelevant :
+  forall u1 u2 s ps, small s ps ->
+  EncodeBatchGen.encode_batch u1 ps s = EncodeBatchGen.encode_batch u2 ps s.
+Proof. exact gen_uninit_irrelevant. Qed.
